@@ -11,7 +11,7 @@ from vlib.common import *
 from vlib.fresh import up_to_date
 
 C_LIGHT = 299792458.0
-IMPORTS = ("From SpdVerif Require Import Base.Rx Base.PolingBase Gen.Poling Gen.Sweep Spec.SweepPaths Model.Sweep Proofs.C18_angles Proofs.C18_tac.\n"
+IMPORTS = ("From SpdVerif Require Import Base.Rx Base.PolingBase Gen.Poling Gen.Sweep Spec.SweepPaths Model.Sweep Proofs.C18_angles Proofs.C18_tac.\nFrom SpdVerif Require Base.GridOps Gen.Grid.\n"
            "Import ListNotations.\nLocal Open Scope string_scope.\n")
 
 # the property's table (mirrors Spec/SweepPaths.v; the Coq side proves the generated table against that file)
@@ -365,8 +365,8 @@ def correspondence(ctx, obs, label, limit=None):
         nx, ny = o["nx"], o["ny"]
         for it in o["items"]:
             k = it["j"]
-            g = (f"Rabs (fst (steps2d_value {coq_hex(o['r1'][0])} {coq_hex(o['r1'][1])} {nx} {coq_hex(o['r2'][0])} {coq_hex(o['r2'][1])} {ny} {k}) - {coq_hex(it['v1'])}) <= 1e-12 * (1 + Rabs {coq_hex(it['v1'])}) /\\ "
-                 f"Rabs (snd (steps2d_value {coq_hex(o['r1'][0])} {coq_hex(o['r1'][1])} {nx} {coq_hex(o['r2'][0])} {coq_hex(o['r2'][1])} {ny} {k}) - {coq_hex(it['v2'])}) <= 1e-12 * (1 + Rabs {coq_hex(it['v2'])})")
+            g = (f"Rabs (fst (Gen.Grid.steps2d_value GridOps.Rops {coq_hex(o['r1'][0])} {coq_hex(o['r1'][1])} {nx} {coq_hex(o['r2'][0])} {coq_hex(o['r2'][1])} {ny} {k}) - {coq_hex(it['v1'])}) <= 1e-12 * (1 + Rabs {coq_hex(it['v1'])}) /\\ "
+                 f"Rabs (snd (Gen.Grid.steps2d_value GridOps.Rops {coq_hex(o['r1'][0])} {coq_hex(o['r1'][1])} {nx} {coq_hex(o['r2'][0])} {coq_hex(o['r2'][1])} {ny} {k}) - {coq_hex(it['v2'])}) <= 1e-12 * (1 + Rabs {coq_hex(it['v2'])})")
             goals.append((f"g{j}_{k}", g, "case_grid"))
             meta[f"g{j}_{k}"] = o
     res = run_interval_cases(ctx, "C18" + label, IMPORTS, goals)
@@ -418,7 +418,7 @@ def correspondence(ctx, obs, label, limit=None):
 # ------------------------------------------------------------------------------------------------ pipeline
 def run(ctx):
     binp = build_harness(ctx)
-    msgs, spans = regen(ctx, ["sweep", "poling"])
+    msgs, spans = regen(ctx, ["sweep", "poling", "grid"])
     ctx.cov["translated_spans"] = {k: v for k, v in spans.items() if k.split("::")[0] in ("sweep", "spdc_iter", "beam", "spdc_obj", "config", "utils", "math")}
     for m in msgs:
         ctx.proof_failures.append(("Gen/Sweep.v", "translator", m))
@@ -452,13 +452,13 @@ def run(ctx):
         "only the named field changes (all 25 paths)": "proved over the generated table (record-level frame) + measured on SPDC::as_config",
         "named field = requested value in the path's unit (all 25 paths)": "proved against the hand-pinned unit table + measured (4 decimals)",
         "THz = 1e12 cycles per second (3 paths)": "proved (stored 2 pi v 1e12 rad/s; shown as c/(v 1e12) nm) + measured — was violated before /repo c033754 (finding F8, fixed)",
-        "external angle stored as Snell-equivalent internal angle": "proved modulo the Snell oracle; readback through Beam::theta_external measured (1e-5)",
+        "external angle stored as Snell-equivalent internal angle": "proved against the C13 Snell contract (C18_external_angle_partial: |sin e - n(th) sin th| <= optimiser residual, view shows th, read-back within r/cos M); convergence of the simplex and the read-back measured per input",
         "poling period keeps its derived sign": "proved on every base (poled: apodization kept; unpoled: poling created) modulo the compute_sign oracle + measured — "
                                                 "on an unpoled base the setter did nothing before /repo 7f110fb (finding F9, fixed)",
         "unknown paths rejected": "proved (get_setter p = None <-> p not in the documented list) + measured",
-        "nx*ny setups, row-major, first parameter fastest": "proved over the translated Steps2D::value and the shape-pinned iterators + measured",
-        "swept spectrum values = individually constructed": "proved structurally (map over the same setups) + measured bit-exactly"}
+        "nx*ny setups, row-major, first parameter fastest, first setter first": "proved over the generated SPDCIter::{try_new, into_iter} and the generated Iterator2D (Gen/Grid.v, C14 lemmas) + measured",
+        "swept spectrum values = individually constructed": "proved over the generated jsi_values / jsi_values_normalized (kernels and try_as_optimum as oracles) + measured"}
     return finish(ctx, assumptions=["Snell search and poling-sign computation are oracles (Section variables); the theorems hold for every oracle",
-                                    "SPDCIter::into_iter / Iterator2D::next / jsi_values are pinned by AST shape, not executed symbolically",
+                                    "spectrum kernels |jsa_raw|^2, jsi_normalization and SPDC::try_as_optimum are oracles of the generated jsi_values(_normalized)",
                                     "units are SI-coherent scalars in the model (dimensioned's gram-based watt/volt cancel in every expression used)",
                                     "Spec/SweepPaths.v transcribes the 25 documented paths and their units by hand"])
